@@ -144,6 +144,8 @@ static void run() {
     own_matmul<9,9,9>(); own_matmul<8,16,8>(); own_matmul<16,3,16>(); own_matmul<3,17,5>(); own_matmul<17,17,17>(); own_matmul<5,33,2>(); own_matmul<12,7,13>();
     // wide outputs: more than five vectors per row with every remainder (the masked interior kernels), tall and deep ones
     own_matmul<4,2,22>(); own_matmul<4,2,23>(); own_matmul<5,3,26>(); own_matmul<4,2,27>(); own_matmul<4,4,21>(); own_matmul<6,2,25>(); own_matmul<4,2,42>(); own_matmul<4,2,43>(); own_matmul<5,2,45>(); own_matmul<4,3,47>(); own_matmul<4,2,83>();
+    // row counts that are multiples of every small-N row unrolling (10, 5, 4, 3, 2) with fewer columns than a vector: the last row block ends the output
+    own_matmul<10,2,3>(); own_matmul<20,3,3>(); own_matmul<10,3,5>(); own_matmul<20,2,7>(); own_matmul<40,2,6>(); own_matmul<30,2,2>(); own_matmul<20,2,9>(); own_matmul<12,2,13>();
     own_matmul<22,3,4>(); own_matmul<23,2,5>(); own_matmul<4,22,4>(); own_matmul<5,23,3>(); own_matmul<3,2,22>(); own_matmul<2,2,23>(); own_matmul<1,4,27>();
 #else
     sq_n(std_ext::make_index_sequence<8>::type());                    // square 2..9
